@@ -802,11 +802,18 @@ func (m *Matcher) inline(call *Call, c *cont, fr *frame) *cont {
 	} else if call.StreamArg >= 0 && call.StreamArg < len(cc.Params) {
 		stream = cc.Params[call.StreamArg]
 	}
-	if stream == nil {
+	var delegate *ast.CallExpr
+	if stream == nil && call.StreamArg == -3 {
+		delegate = m.X.DelegateProducer(fi)
+	}
+	if stream == nil && delegate == nil {
 		return nil
 	}
 	fkey := fmt.Sprintf("%d@%d", fr.id, call.Pos)
 	if cached, ok := m.frames[fkey]; ok {
+		if delegate != nil {
+			return m.inline(&Call{Pos: delegate.Pos(), Callee: calleeOf(cc.Info, delegate), Expr: delegate, Fn: cc, StreamArg: -3}, c, cached)
+		}
 		g := m.X.Grammar(fi, stream)
 		return mkCont(m.splice(call, g, "endframe"), 0, c.advance(), cached, true)
 	}
@@ -841,6 +848,10 @@ func (m *Matcher) inline(call *Call, c *cont, fr *frame) *cont {
 		if s, ok := m.X.canonF(fr, stripConv(fr.ctx, a), 0); ok {
 			nfr.subst[cc.Params[i]] = s
 		}
+	}
+	if delegate != nil {
+		// the bytes come from a producer called inside this function: follow that call in this frame
+		return m.inline(&Call{Pos: delegate.Pos(), Callee: calleeOf(cc.Info, delegate), Expr: delegate, Fn: cc, StreamArg: -3}, c, nfr)
 	}
 	g := m.X.Grammar(fi, stream)
 	m.countAtoms(nfr)
